@@ -64,7 +64,7 @@ def validate(ctx, recs):
     return out
 
 
-def run(ctx):
+def body(ctx):
     # (1) the design: every merge sequence on small strings keeps the encodings lossless and replayable; the contraction
     #     loop (with its guarded tail) is safe and equals the declarative contraction
     r = tlc.run_tlc("BPE", dict(Alphabet=E("{1,2}"), MaxLen=ctx.pick(4, 5), MaxStrings=2, MaxMerges=3, FIXED=True),
@@ -107,6 +107,10 @@ def run(ctx):
     if owners:
         ctx.sample({"train": owners[0][0]["train"], "test": owners[0][0]["test"], "cfg": owners[0][0]["cfg"],
                     "code_list": recs[0]["codes"], "encodings": recs[0]["enc_ft"]})
+
+
+def run(ctx):
+    body(ctx)
     ctx.exhaustive = False
     ctx.assumptions += ["named precondition: some pair of adjacent characters occurs at least twice in the training strings "
                         "(otherwise training raises ValueError and nothing is claimed)"]
